@@ -194,7 +194,10 @@ Inductive dcase :=
 | DRandomC (id : nat) (d1 d2 : nat) (n : option nat) (n_over n_iter : nat) (M G : cmat)
            (qrs : list (cmat * cmat)) (svds : list (cmat * triple C * triple C)) (expected : triple C)
 | DIfaceCM (id : nat) (d1 d2 : nat) (n : option nat) (flip ub : bool) (M mask : cmat) (iters : nat)
-           (tape : list (cmat * triple C * triple C)) (expected : res (triple C)).
+           (tape : list (cmat * triple C * triple C)) (expected : res (triple C))
+(* make_svd_non_negative called directly on hand-made factors (entries 0 / +-1, S and the part sizes perfect squares, so that every
+   norm and sqrt is exact): exact TIES m_p = m_n between the positive and the negative parts, zero parts, unequal factor counts *)
+| DNN (id : nat) (M U : qmat) (Sg : list Q) (V : qmat) (ty : nntype) (eW eH : qmat).
 
 Definition ctol_a : Q := Qmake 1 1000000000.
 Definition ctol_r : Q := Qmake 1 1000000.
@@ -224,11 +227,15 @@ Definition dagree (c : dcase) : bool :=
       | Err, Err => true
       | _, _ => false
       end
+  | DNN _ M U Sg V ty eW eH =>
+      let '(W, H) := make_svd_non_negative Qops qsqrt eps64 M U Sg V ty in
+      mat_close (Qmake 1 1000000000) (Qmake 1 1000000000) W eW && mat_close (Qmake 1 1000000000) (Qmake 1 1000000000) H eH
   end.
 Definition dident (c : dcase) : nat :=
   match c with
   | DFlip i _ _ _ _ _ => i | DSymeig i _ _ _ _ _ _ _ _ => i | DRandom i _ _ _ _ _ _ _ _ _ _ => i
   | DFlipC i _ _ _ _ _ => i | DIfaceC i _ _ _ _ _ _ _ _ _ => i | DReject i _ _ _ _ => i
   | DSketch i _ _ _ _ _ _ _ _ _ => i | DRandomC i _ _ _ _ _ _ _ _ _ _ => i | DIfaceCM i _ _ _ _ _ _ _ _ _ _ => i
+  | DNN i _ _ _ _ _ _ _ => i
   end.
 Definition dfailing := failing_ids dagree dident.
